@@ -36,6 +36,7 @@ TIERS = dict(quick=dict(cases=20000, wall=60.0), thorough=dict(cases=700000, wal
 
 REQ10 = b"GET /idle HTTP/1.0\r\nHost: x\r\nAccept: */*\r\n\r\n"
 REQ11 = b"GET /done HTTP/1.1\r\nHost: x\r\n\r\n"
+BLOCK_TRICKLE = b"GET /slow HTTP/1.0\r\nHost: example.com\r\nX-Pad: " + b"p" * 4000
 HEAD_TRICKLE = b"GET /slow HTTP/1.0\r\nHost: example.com\r\nUser-Agent: trickle-trickle-trickle-trickle-trickle-trickle\r\nX-A: 1\r\nX-B: 2\r\nX-C: 3\r\n"
 
 
@@ -142,6 +143,9 @@ def run_case(tape, tier):
     if tymeout == 5.0 and tock < 0.1:
         tock = 0.1
     ncl = 1 + tape.draw("nclients", 3)
+    # receive buffer size of the server's connections: default, or so small that a trickling client's pieces are exactly one
+    # (or two) buffers long and no read ever comes back short
+    sbs = tape.pick("server_bs", [8096, 8096, 8096, 64]) if not tls else 8096
     kinds = ["silent", "trickle", "burst", "appnever", "persistent", "download"]
     if bare:
         kinds = ["silent", "trickle", "burst"]
@@ -155,9 +159,16 @@ def run_case(tape, tier):
             d = tape.pick("trickle_d", [0.3, 0.6, 0.9]) * tymeout
             nb = 2 + tape.draw("trickle_n", 10)
             t = start + tock
-            for k in range(nb):
-                script.append((t, HEAD_TRICKLE[k:k + 1]))
-                t += d
+            if sbs == 64:
+                plen = 64 * tape.pick("trickle_piece_buffers", [1, 1, 2])
+                for k in range(nb):
+                    script.append((t, BLOCK_TRICKLE[k * plen:(k + 1) * plen]))
+                    t += d
+                res.faults["trickle_pieces_of_exactly_the_buffer_size"] += 1
+            else:
+                for k in range(nb):
+                    script.append((t, HEAD_TRICKLE[k:k + 1]))
+                    t += d
             last = script[-1][0]
         elif kind == "burst":
             nb = 2 + tape.draw("burst_n", 8)
@@ -203,7 +214,7 @@ def run_case(tape, tier):
     if tape.flag("rewind", 1, 5):
         rewind = dict(at=(2 + tape.draw("rewind_cycle", max(1, int(horizon / tock) + 4))) * tock,
                       delta=tape.pick("rewind_delta", [64.0, -8.0, 16.0]))
-    cfg = dict(tls=tls, bare=bare, tymeout=tymeout, tock=tock, limit=limit, clients=specs, rewind=rewind)
+    cfg = dict(tls=tls, bare=bare, tymeout=tymeout, tock=tock, limit=limit, clients=specs, rewind=rewind, server_bs=sbs)
     raised = []
     downloads = [sp for sp in specs if sp["kind"] == "download"]
     if downloads:
@@ -219,6 +230,8 @@ def run_case(tape, tier):
         kwa = {}
         if tls:
             kwa["context"] = tlsmod.SimSSLContext(net, True)
+        if sbs != 8096:
+            kwa["bs"] = sbs
         if bare:
             server = hserving.BareServer(port=lab.port, scheme="https" if tls else "http", timeout=tymeout, **kwa)
         else:
